@@ -10,7 +10,10 @@ import sys
 
 from .core import VERIF
 
-ALL = ["C05", "C11", "C10"]
+def discover():
+    import glob
+
+    return sorted(os.path.basename(f)[:-3] for f in glob.glob(os.path.join(VERIF, "rsim", "checks", "C[0-9][0-9].py")))
 
 
 def digests(pid: str, seed: int, n: int, slots: int, hashseed: str) -> list:
@@ -26,8 +29,8 @@ def digests(pid: str, seed: int, n: int, slots: int, hashseed: str) -> list:
 def main(quick: bool = False, pids=None) -> int:
     import importlib.util
 
-    pids = pids or [p for p in ALL if importlib.util.find_spec(f"rsim.checks.{p}")]
-    n = 12 if quick else 200
+    pids = pids or discover()
+    n = 6 if quick else 200
     seeds = [1] if quick else [1, 2, 3]
     bad = 0
     for pid in pids:
